@@ -103,8 +103,16 @@ def eval_volume(coords, M, res):
         vol = trajectory_to_volume(traj, resolution=res)
     except Exception as e:  # noqa: BLE001
         return [(f'volume-raise-{type(e).__name__}', str(e))], ('raise',), 0, 0
-    data = np.asarray(vol.data)
+    data = np.asarray(vol.data).copy()
     shape = data.shape
+    try:
+        # a later density on the same grid (another trajectory: one frame, all atoms moved) leaves this one as it was
+        other = trajectory_to_volume(concretise.make_trajectory(np.mod(coords[:1] + 0.37, 1.0), ['Li'] * N, M), resolution=res)
+        if not np.array_equal(np.asarray(vol.data), data):
+            viols.append(('earlier-volume-changed-by-a-later-volume-on-the-same-grid', f'sum now {int(np.asarray(vol.data).sum())}, was {int(data.sum())}; shares memory with the later one: {bool(np.shares_memory(np.asarray(vol.data), np.asarray(other.data)))}'))
+        del other
+    except Exception as e:  # noqa: BLE001
+        viols.append((f'second-volume-raise-{type(e).__name__}', str(e)))
     if int(data.sum()) != T * N:
         viols.append(('voxel-sum-not-frames-times-atoms', f'sum={int(data.sum())} expected={T * N} shape={shape} res={res}'))
     lengths = np.linalg.norm(M, axis=1)
